@@ -195,6 +195,47 @@ pub fn run_c01(tier: &str) -> Report {
     rep.sink.extend(vs);
     let br = st.branches.lock().unwrap().clone();
     let hard: u64 = br.iter().filter(|(k, _)| **k > 1).map(|(_, v)| *v).sum();
+    // call ladders: a lookup repeated after exactly g - 1 identical lookups of a far-away point on one
+    // fresh thread, g around 2^8, 2^10, 2^12, 2^16 (a per-thread lookup counter that wraps, stale slots)
+    {
+        let jobs: Vec<(f64, f64, i32)> = vec![(12.3, 45.6, 12), (-71.9, -12.25, 6), (151.2, -33.9, 20)];
+        let vs: Vec<Viol> = jobs
+            .par_iter()
+            .flat_map(|&(lon, lat, r)| {
+                std::thread::scope(|sc| {
+                    sc.spawn(|| {
+                        let st2 = Stats::new();
+                        let mut out = check_lookup(lon, lat, r, &st2, false);
+                        // the centre of the cell found, and a point well inside a neighbour
+                        let targets: Vec<(f64, f64)> = match subj::lookup(lon, lat, r).and_then(subj::centre) {
+                            Ok(c) => vec![c, (lon, lat)],
+                            Err(_) => vec![(lon, lat)],
+                        };
+                        for g in [255u64, 256, 257, 1023, 1024, 1025, 4096, 65535, 65536, 65537] {
+                            for _ in 1..g {
+                                let _ = subj::lookup(-120.0, -40.0, r);
+                            }
+                            let t = targets[(g % targets.len() as u64) as usize];
+                            let v = check_lookup(t.0, t.1, r, &st2, false);
+                            if !v.is_empty() {
+                                out.extend(v.into_iter().map(|mut x| {
+                                    x.what = format!("{} [lookup made after exactly {} identical lookups of (-120, -40) on the same thread]", x.what, g - 1);
+                                    x.case["after_fillers"] = json!(g - 1);
+                                    x
+                                }));
+                                break;
+                            }
+                        }
+                        out
+                    })
+                    .join()
+                    .unwrap()
+                })
+            })
+            .collect();
+        rep.sink.extend(vs);
+        rep.set("call_ladder_lookups", json!(3 * 201_000));
+    }
     rep.set("evaluations", json!(st.evals.load(Ordering::Relaxed)));
     rep.set("distinct_nontrivial", json!(hard));
     rep.set("rule", json!(format!("sphere lattice of {} points (Fibonacci + frame vertices/edges/seams with offsets + polar caps + antimeridian) x every resolution 0..29, plus {} edge/vertex-hugging points of all cells r<={} and of family cells to r=29; oracle: canonical id of exactly the requested resolution, signed planar distance to the returned cell >= -4e-12 (real forward projection + reference perpendicular distance), and for r<=12 containment in the reported boundary ring (independent spherical test); lon+-360k and pole-longitude equivalence on every 5th special point; distinct_nontrivial = lookups NOT answered by the first estimate (hook H1)", npts, hug.load(Ordering::Relaxed), rmax)));
@@ -439,6 +480,26 @@ pub fn run_c02(tier: &str) -> Report {
 pub fn replay(prop: &str, case: &Value) -> Vec<Viol> {
     let st = Stats::new();
     match (prop, case["kind"].as_str().unwrap_or("")) {
+        ("C01", "lookup") if case["after_fillers"].is_u64() => {
+            let (lon, lat, r) = (case["lon"].as_f64().unwrap(), case["lat"].as_f64().unwrap(), case["res"].as_i64().unwrap() as i32);
+            let upto = case["after_fillers"].as_u64().unwrap() + 1;
+            std::thread::spawn(move || {
+                let st = Stats::new();
+                let mut out = check_lookup(lon, lat, r, &st, false);
+                for g in [255u64, 256, 257, 1023, 1024, 1025, 4096, 65535, 65536, 65537] {
+                    if !out.is_empty() || g > upto {
+                        break;
+                    }
+                    for _ in 1..g {
+                        let _ = subj::lookup(-120.0, -40.0, r);
+                    }
+                    out = check_lookup(lon, lat, r, &st, false);
+                }
+                out
+            })
+            .join()
+            .unwrap_or_default()
+        }
         ("C01", "lookup") => check_lookup(case["lon"].as_f64().unwrap(), case["lat"].as_f64().unwrap(), case["res"].as_i64().unwrap() as i32, &st, true),
         ("C02", "interior_after") => {
             let c = u64::from_str_radix(case["id"].as_str().unwrap(), 16).unwrap();
